@@ -74,12 +74,17 @@ class CancelOnShutdownExecutor(CanCustomizeBind, Executor):
         Note that there is no guarantee that the cancel will succeed, and only a single
         attempt is made to cancel any future.
         """
+        # Flip the shutdown flag before taking self._lock: submit() takes the
+        # shutdown gate first and self._lock second, so taking them in the
+        # opposite order here could deadlock against a concurrent submit().
+        # Once the flag is flipped no submit() is inside the gate any more, and
+        # every future it returned has already been added to self._futures.
+        if not self._shutdown():
+            return
+        metrics.EXEC_INPROGRESS.labels(
+            type="cancel_on_shutdown", executor=self._name
+        ).dec()
         with self._lock:
-            if not self._shutdown():
-                return
-            metrics.EXEC_INPROGRESS.labels(
-                type="cancel_on_shutdown", executor=self._name
-            ).dec()
             futures = self._futures.copy()
 
         for f in futures:
